@@ -364,7 +364,9 @@ func init() { regReplay("C10", checkC10) }
 // generator of template trees
 
 // names: ASCII, digits, '-' and '_', Latin-1, and letters whose case mapping changes the UTF-8 length
-var c10Names = []string{"a", "b", "name", "X1", "long_name", "user-id", "é", "n0", "Ⱥb", "ẞx", "İd", "ǅ", "2fa", "1st", "9", "_x", "a-"}
+var c10Names = []string{"a", "b", "name", "X1", "long_name", "user-id", "é", "n0", "Ⱥb", "ẞx", "İd", "ǅ", "2fa", "1st", "9", "_x", "a-",
+	// long names: 32, 33 and 70 characters
+	"n234567890123456789012345678901_", "n2345678901234567890123456789012X", "a_very_long_variable_name_that_goes_on_and_on_for_seventy_characters__"}
 
 func genText(t *rapid.T, afterTag bool) string {
 	n := rapid.IntRange(1, 8).Draw(t, "tn")
